@@ -339,6 +339,10 @@ def c15_timeout_script(rng, name, pts, silence_at, total, ka="-", shared_adv=Non
     for p in range(1, n):
         ops.append("npeer %d p%d" % (p, p + 1))
         ops += drain(6)
+    if silence_at is None:
+        # all nodes start and connect at time 0 and nothing is lost: membership is stable from the first second on (every node's first announcement goes out
+        # with its first housekeeping call), no peer may ever be timed out
+        ops.append("nexpect stable")
     t = 0
     while t < total:
         t += 1
